@@ -975,26 +975,24 @@ where
 
     fn next(&mut self) -> Option<Self::Item> {
         // Replace maybe_next in iterator with its tail and return head
-        match self.maybe_next.take().map(|x| x.as_mut()) {
-            Some(LTermInner::Cons(head, tail)) => {
-                if tail.is_empty() {
-                    // The iterator has finished the list after this one
-                    self.maybe_next = None;
-                } else {
-                    let _ = self.maybe_next.replace(tail);
+        let current = self.maybe_next.take()?;
+        if current.is_empty() {
+            return None;
+        }
+        if !current.is_non_empty_list() {
+            // If the list is improper, it ends in non-cons term, which is the last element
+            // (as in LTermIter).
+            return Some(current);
+        }
+        match current.as_mut() {
+            LTermInner::Cons(head, tail) => {
+                if !tail.is_empty() {
+                    // The iterator continues with the tail after this one
+                    self.maybe_next = Some(tail);
                 }
-
                 Some(head)
             }
-            Some(LTermInner::Empty) => {
-                self.maybe_next = None;
-                None
-            }
-            Some(_) => {
-                // If the list is improper, it ends in non-cons term.
-                self.maybe_next.take()
-            }
-            _ => None, // Iterator is finished
+            _ => None,
         }
     }
 }
